@@ -75,6 +75,8 @@ def run(res, programs, tier):
     for P in sub:
         if "dashu_float" in P.units and "dashu_ratio" in P.units and P.role == "main":
             polarity.rule(res, P, P.name, "R10.4")
+            from . import halftest
+            halftest.rule(res, P, P.name, "R10.5")
     cfgs_seen = sorted({p.name for p in sub})
     new = set(res.violations) - before
     known = _known_keys()
